@@ -332,13 +332,27 @@ def run_unit(unit_dir, rlimit=100, probes=True, keep=True):
                     o = _origin_at(pl, s['line_start'], s['column_start'])
                     if o[0] == 'ov' and len(o) > 3 and o[3] and str(o[3][0]).startswith('PROBE:'):
                         rejected.add(o[3][0])
-        # body probes (#0) must all be rejected; loop probes (#k>0) may be shadowed by
-        # the body probe when Verus stops exploring, so they are reported only.
+        # loop probes shadowed by the body probe of the same function: second pass with loop probes only
+        if any(not e.endswith('#0') for e in expected - rejected):
+            lpath = os.path.join(out_dir, unit + '_probe_loops.rs')
+            lasm, _ = extract.assemble(unit_dir, lpath, probe='loops')
+            ll = lasm.linemap()
+            ljs, ldiags, lwall, lcmd, lerr = run_verus(lpath, rlimit)
+            res['wall_s'] += lwall
+            for d in ldiags:
+                cls, kind = classify(d)
+                if cls == 'fail' and kind == 'assertion':
+                    for s in d.get('spans', []):
+                        o = _origin_at(ll, s['line_start'], s['column_start'])
+                        if o[0] == 'ov' and len(o) > 3 and o[3] and str(o[3][0]).startswith('PROBE:'):
+                            rejected.add(o[3][0])
         missing = sorted(e for e in expected - rejected if e.endswith('#0'))
         res['probes'] = {'expected': len(expected), 'rejected': len(rejected),
                          'missing_body': missing,
                          'missing_loop': sorted(e for e in expected - rejected if not e.endswith('#0'))}
-        if missing and res['status'] == 'ok':
+        missing_loop = sorted(e for e in expected - rejected if not e.endswith('#0'))
+        if (missing or missing_loop) and res['status'] == 'ok':
+            missing = missing + missing_loop
             res.update(status='undecided', reason='vacuity probe verified (contradictory precondition?): %s' % missing[:5])
     res['total_wall_s'] = time.time() - t00
     return res
